@@ -442,6 +442,12 @@ fn run_init<'t>(c: &mut Case, g: &mut Gen, t: &'t Tree, src: &Source, stats: &mu
 	if !hidden.is_empty() { *c.rec.classes.entry("init+hidden-blocks".to_string()).or_insert(0) += 1; }
 	if bogus { *c.rec.classes.entry("init+overlong-locator".to_string()).or_insert(0) += 1; }
 	if locs.iter().any(|l| !l.1.ends_with(':')) { *c.rec.classes.entry("init+locator-with-ancestors".to_string()).or_insert(0) += 1; }
+	// position of each listener relative to the source's best block (the four shapes of `startup_step_brings_listener_to_tip`)
+	for s in &starts {
+		let l = t.lca(*s, best);
+		let pos = if *s == best { "at-source-tip" } else if l == *s { "behind-source-tip" } else if l == best { "ahead-of-source-tip(same branch)" } else { "on-a-fork" };
+		*c.rec.classes.entry(format!("init+listener-{}{}", pos, if ret.is_some() { "" } else { ":err" })).or_insert(0) += 1;
+	}
 	stats.max_fork_depth = stats.max_fork_depth.max(depth);
 	c.rec.case(&op, ans.trim_end(), &class, true);
 	c.fp = c.fp.wrapping_mul(0x100000001b3) ^ fnv64(&ans) ^ fnv64(&op);
